@@ -46,6 +46,9 @@ def main(argv=None):
     ap.add_argument("--replay", default=None)
     ap.add_argument("--repo", default=None)
     ap.add_argument("--no-evidence", action="store_true")
+    ap.add_argument("--emit-known", action="store_true",
+                    help="developer aid: print the current unlisted findings as JSON entries for "
+                         "known_findings.json (printing only; the file is never written at run time)")
     args = ap.parse_args(argv)
     prop = args.prop.upper()
     t0 = time.time()
@@ -61,6 +64,10 @@ def main(argv=None):
             selftest_result = selftest.run(prop, ctx)
         if args.replay:
             return replay(ctx, args.replay)
+        if args.emit_known:
+            print(json.dumps([{"property": prop, "key": f.key, "what": f.detail[:200]}
+                              for f in ctx.findings if not f.known], indent=1))
+            return 0
         print("property %s  tier=%s  repo=%s  digest=%s" % (
             prop, args.tier, ctx.repo.root, ctx.repo.digest.hexdigest()[:12]))
         print("analysed: %d function(s) in %d file(s); %d obligation(s), %d distinct" % (
